@@ -12,11 +12,12 @@ CONFIGS = [
     ("htree_4k", ["-t", "ext4", "-b", "4096"], False),
     ("htree_nocsum_1k", ["-t", "ext4", "-b", "1024", "-O", "^metadata_csum,^64bit"], False),
     ("nofiletype_1k", ["-t", "ext2", "-b", "1024", "-O", "^dir_index,^filetype"], True),
+    ("ext3_linear_1k", ["-t", "ext3", "-b", "1024", "-O", "^dir_index"], True),
 ]
 
 
 def setup(src):
-    e2v.build_driver("dirblock", ["theories/DirBlock/DirBlock.vo"], ["dirblock_model"])
+    e2v.build_driver("dirblock", ["theories/DirBlock/DirBlock.vo", "theories/DirBlock/DxSearch.vo"], ["dirblock_model"])
 
 
 def dir_blocks(fs, ino):
@@ -65,6 +66,92 @@ def listing(fs, ino):
     return {name: child for name, child, ft in fs.dir_entries(ino) if name not in (b".", b"..")}
 
 
+def dx_index(fs, ino):
+    """decode the htree index of a directory: (root entries [(hash, logical block)], {node logical block: entries}, {leaf logical block: [names]});
+    None when the directory is not indexed"""
+    inode = fs.inode(ino)
+    if not inode["flags"] & 0x1000:
+        return None
+    m, _ = fs.file_map(ino, inode)
+    bs = fs.bs
+
+    def entries(raw, off):
+        limit, count = struct.unpack_from("<HH", raw, off)
+        out = [(0, struct.unpack_from("<I", raw, off + 4)[0])]
+        for i in range(1, count):
+            h, b = struct.unpack_from("<II", raw, off + 8 * i)
+            out.append((h, b))
+        return out
+    if 0 not in m:
+        return None
+    root_raw = fs.block(m[0][0])
+    info_len, levels = root_raw[0x18 + 5], root_raw[0x18 + 6]
+    root = entries(root_raw, 0x18 + info_len)
+    nodes = {}
+    leaf_blocks = [b for h, b in root]
+    if levels:
+        leaf_blocks = []
+        for h, b in root:
+            if b in m:
+                nodes[b] = entries(fs.block(m[b][0]), 8)
+                leaf_blocks += [bb for hh, bb in nodes[b]]
+    leaves = {}
+    for lb in leaf_blocks:
+        if lb in m:
+            leaves[lb] = [nm for (o, i, rl, nl, ft, nm) in fs.dir_block_entries(fs.block(m[lb][0])) if i]
+    return root, nodes, leaves
+
+
+def dx_hashes(src, img, d, names, env):
+    """major hash of every name, computed by debugfs dx_hash with the filesystem's own algorithm and seed"""
+    script = "".join("dx_hash %s\n" % n for n in names)
+    rc, out = e2v.sh([os.path.join(src, "debugfs/debugfs"), "-f", "-", img], input=script.encode(), env=env, timeout=300)
+    res = {}
+    for m in re.finditer(r"Hash of (\S+) is (0x[0-9a-f]+)", out):
+        res[m.group(1)] = int(m.group(2), 16)
+    return res
+
+
+def dx_model_leaf(mexe, idx3, h):
+    root, nodes, _ = idx3
+    line = "DX %d | %s" % (h, " ".join("%d:%d" % e for e in root))
+    for b, ents in sorted(nodes.items()):
+        line += " | %d %s" % (b, " ".join("%d:%d" % e for e in ents))
+    if not nodes:
+        line += " |"
+    return ask(mexe, line).strip()
+
+
+def dx_audit(src, mexe, img, fs, d, env):
+    """every name of an indexed directory sits in the leaf that the index search (model) reaches for its hash;
+    a leaf whose lower bound has the continuation bit may also hold names of the previous range"""
+    di = lookup(fs, d)
+    idx3 = dx_index(fs, di)
+    if idx3 is None:
+        return 0, []
+    root, nodes, leaves = idx3
+    allnames = [nm.decode("latin1") for lb in leaves for nm in leaves[lb] if nm not in (b".", b"..")]
+    simple = [n for n in allnames if re.match(r"^[A-Za-z0-9_.-]+$", n)]
+    hs = dx_hashes(src, img, d, simple, env)
+    lows = {}
+    for ents in [root] + list(nodes.values()):
+        for h, b in ents:
+            lows[b] = h
+    bad, n = [], 0
+    for lb, nms in leaves.items():
+        for nm in nms:
+            s_ = nm.decode("latin1")
+            if s_ not in hs:
+                continue
+            n += 1
+            want = dx_model_leaf(mexe, idx3, hs[s_])
+            if want != str(lb) and not (lows.get(lb, 0) & 1):
+                bad.append({"directory": d, "name": s_, "hash": "0x%08x" % hs[s_], "found in leaf (logical block)": lb, "index search reaches": want})
+                if len(bad) >= 3:
+                    return n, bad
+    return n, bad
+
+
 def one_case(src, mexe, idx, seed, tier):
     r = e2v.rng(seed, "c10", idx)
     name, opts, linear = CONFIGS[idx % len(CONFIGS)]
@@ -81,8 +168,11 @@ def one_case(src, mexe, idx, seed, tier):
     dirs = {"/d": {}, "/e": {}}          # spec: directory -> {name: kind}
     # some cases start from a directory of several blocks / an index with several leaves (and a second level)
     bulk = [0, 0, 60, 150, 400, 1200][(idx // len(CONFIGS)) % 6] if not (linear and (idx // len(CONFIGS)) % 2 == 0) else [0, 40, 130][(idx // len(CONFIGS) // 2) % 3]
+    blockmapped = name.startswith(("ext2", "ext3", "nofiletype"))
+    if blockmapped and linear and (idx // len(CONFIGS)) % 2 == 1:
+        bulk = 240          # a block-mapped directory grows past 12 blocks: the expansion allocates an indirect block too
     if bulk:
-        nmlen = r.choice([12, 40, 120])
+        nmlen = r.choice([12, 40, 120]) if bulk != 240 else 100
         script = "".join("write /dev/null /d/%s\n" % ("bulk_%04d_" % i).ljust(nmlen, "z") for i in range(bulk))
         e2v.sh([T("debugfs/debugfs"), "-w", "-f", "-", img], input=script.encode(), env=env, timeout=600)
         for i in range(bulk):
@@ -101,7 +191,16 @@ def one_case(src, mexe, idx, seed, tier):
             livenames = [nm.decode("latin1") for i, rl, nm in b if i and nm not in (b".", b"..")]
             if len(livenames) >= 3:
                 directed += [livenames[0], livenames[1]]
+    recreate = []
+    if bulk and not linear:
+        # names whose hash is the lower bound of a leaf: removing and re-creating them exercises the index search at the boundary
+        ix = dx_index(fs, lookup(fs, "/d"))
+        if ix:
+            hs0 = dx_hashes(src, img, "/d", sorted(dirs["/d"]), env)
+            bounds = {h & ~1 for ents in [ix[0]] + list(ix[1].values()) for h, b in ents[1:]}
+            recreate = [n for n in sorted(hs0) if hs0[n] in bounds][:6]
     ops, problems = [], []
+    dx_rows, dx_bad = 0, []
     corr, corr_bad = 0, []
     nops = r.randint(20, 80 if tier == "quick" else 400) + (45 if bulk and not linear else 0)
     burst = None
@@ -117,7 +216,24 @@ def one_case(src, mexe, idx, seed, tier):
         elif r.random() < 0.05:
             burst = (0.1, r.randint(10, 60))          # many creations in a row: the directory grows by blocks / index levels
         before_blocks = dir_blocks(fs, lookup(fs, d)) if linear else None
-        if kind < 0.55 or not names:
+        forced = None
+        if recreate and not mkdir_burst and k % 3 == 0:
+            nm0 = recreate[0]
+            if nm0 in dirs["/d"]:
+                forced = ("rm", nm0)
+            else:
+                forced = ("mk", nm0)
+                recreate.pop(0)
+            d = "/d"
+        if forced and forced[0] == "rm":
+            nm = forced[1]
+            cmd = "rm /d/%s" % nm
+            expect = ("del", "/d", nm, dirs["/d"][nm])
+        elif forced:
+            nm = forced[1]
+            cmd = "write /etc/hostname /d/%s" % nm
+            expect = ("add", "/d", nm, "write")
+        elif kind < 0.55 or not names:
             nl = r.choice([1, 2, 3, 4, 5, 8, 9, 12, 13, 40, 100, 200, 255]) if r.random() < 0.5 else r.randint(1, 30)
             nm = ("%s%d_" % (r.choice("abcxyz"), k)).ljust(nl, r.choice("qrs"))[:nl]
             if nm in dirs[d] or nm in (".", ".."):
@@ -210,6 +326,11 @@ def one_case(src, mexe, idx, seed, tier):
                 if norm(pred) != norm([list(b) for b in after]):
                     corr_bad.append({"op": cmd, "model": [fmt_block(b)[:300] for b in norm(pred)][:3], "observed": [fmt_block(b)[:300] for b in norm(after)][:3]})
                     break
+    if not linear and not problems:
+        for dd in ("/d", "/e"):
+            n_, b_ = dx_audit(src, mexe, img, Fs(img), dd, env)
+            dx_rows += n_
+            dx_bad += b_
     recipe = {"config": name, "mke2fs": opts, "mode": "raw link/unlink" if raw_mode else "whole operations", "ops": ops[-40:], "nops": len(ops), "case_index": idx}
     if not raw_mode and not problems:
         rc, out = e2v.sh([T("e2fsck/e2fsck"), "-fn", img], env=env, timeout=300)
@@ -224,7 +345,7 @@ def one_case(src, mexe, idx, seed, tier):
                 problems.append("directory %s has link count %d, expected %d" % (dd, fs.inode(di)["links"], want))
     if os.path.exists(img):
         os.unlink(img)
-    return recipe, problems, {"corr": corr, "corr_bad": corr_bad, "nops": len(ops), "maxdir": max(len(v) for v in dirs.values())}
+    return recipe, problems, {"corr": corr, "corr_bad": corr_bad, "nops": len(ops), "maxdir": max(len(v) for v in dirs.values()), "dx_rows": dx_rows, "dx_bad": dx_bad}
 
 
 def run(res, replay=None):
@@ -233,19 +354,19 @@ def run(res, replay=None):
     src = e2v.ensure_build()
     pr = e2v.coq_property("C10")
     res.add_proof(pr)
-    mexe = e2v.build_driver("dirblock", ["theories/DirBlock/DirBlock.vo"], ["dirblock_model"])
+    mexe = e2v.build_driver("dirblock", ["theories/DirBlock/DirBlock.vo", "theories/DirBlock/DxSearch.vo"], ["dirblock_model"])
     res.cov["trusted_base"] = e2v.TRUSTED_COMMON + [
         "lib/extfmt.py dir_entries()/dir_block_entries(): the check's own linear reading of every directory block (htree interior nodes are read as empty records)",
         "debugfs write/mkdir/symlink/mknod/ln/unlink/rm/rmdir are the front ends to ext2fs_link/ext2fs_unlink/ext2fs_mkdir; the reference is a Python dict per directory",
     ]
     res.cov["partial"] = ["proved: what link and unlink do to the records of one directory block (tiling kept, exactly one entry added / the first match removed, new record large enough); directory expansion, the htree insert path (dx_link: leaf split, index growth), hashing, mkdir/rmdir link-count bookkeeping and inline directories are validated per operation against the dict reference and by e2fsck, not modelled",
                           "a kernel-style hash lookup of every name in indexed directories is not part of this check (e2fsck -fn verifies the index)"]
-    n = 28 if tier == "quick" else 1200
+    n = 32 if tier == "quick" else 1200
     idxs = [json.load(open(replay))["recipe"]["case_index"]] if replay else list(range(n))
     with concurrent.futures.ThreadPoolExecutor(12) as ex:
         outs = list(ex.map(lambda i: one_case(src, mexe, i, seed, tier), idxs))
-    bad, cbad = [], []
-    corr = ops = 0
+    bad, cbad, xbad = [], [], []
+    corr = ops = dxr = 0
     maxdir = 0
     for recipe, problems, st in outs:
         res.case(json.dumps(recipe), st.get("nops", 0) >= 5)
@@ -258,17 +379,27 @@ def run(res, replay=None):
             bad.append((recipe, problems))
         for c in st.get("corr_bad", [])[:1]:
             cbad.append((recipe, c))
+        dxr += st.get("dx_rows", 0)
+        for c in st.get("dx_bad", [])[:1]:
+            xbad.append((recipe, c))
     res.cov["correspondence"] = {"block_updates_compared": corr, "mismatches": len(cbad),
                                  "compared": "records (inode, rec_len, name) of every block of a linear directory after each link/unlink vs the extracted link_block/unlink_block applied to the blocks before"}
     res.cov["oracle"] = {"evaluations": ops, "failures": len(bad), "largest_directory": maxdir,
                          "statement": "after every operation every directory lists exactly the reference set of names; at the end e2fsck -fn exit 0 and directory link counts = 2 + subdirectories"}
-    res.cov["rule"] = "7 configurations (linear / htree, 1k-4k blocks, checksums and filetype on/off); names of 1..255 bytes at the rec_len thresholds; creation bursts that grow directories over several blocks and index levels; two directories; non-trivial = at least 5 operations"
+    res.cov["rule"] = "8 configurations (linear / htree, 1k-4k blocks, checksums and filetype on/off); names of 1..255 bytes at the rec_len thresholds; creation bursts that grow directories over several blocks and index levels; two directories; non-trivial = at least 5 operations"
+    res.cov["correspondence"]["htree_names_checked"] = dxr
+    res.cov["correspondence"]["htree_mismatches"] = len(xbad)
+    res.cov["correspondence"]["htree_compared"] = "for every name of every indexed directory at the end of a sequence (incl. removed and re-created names whose hash is a leaf's lower bound): the leaf that holds the name vs the leaf the extracted dx_leaf reaches from the decoded index for the name's hash (hash by debugfs dx_hash)"
     res.add_obligation("block model = directory blocks after every link/unlink", not cbad)
+    res.add_obligation("every name sits in the leaf the index search model reaches for its hash", not xbad)
     for recipe, problems in bad[:3]:
         res.violation("oracle", {"recipe": recipe, "problems": problems[:5]}, signature="c10:" + hashlib.sha256(json.dumps(recipe.get("ops", [])).encode()).hexdigest()[:12])
     for recipe, c in cbad[:2]:
         res.violation("correspondence", {"recipe": recipe, "drift": c, "note": "directory block records differ from the model of link_proc/unlink_proc"},
                       has_input=True, signature="c10blk:" + hashlib.sha256(json.dumps(c).encode()).hexdigest()[:12])
-    if not pr["ok"] and not bad and not cbad:
+    for recipe, c in xbad[:2]:
+        res.violation("oracle", {"recipe": recipe, "htree": c, "problems": ["a name is stored outside the hash range of its leaf: a lookup through the index (the kernel's) does not find it"]},
+                      signature="c10dx:" + hashlib.sha256(json.dumps(recipe.get("ops", [])).encode()).hexdigest()[:12])
+    if not pr["ok"] and not bad and not cbad and not xbad:
         res.violation("proof", {"theorem_file": "coq/theories/Properties_C10.v", "failed_at": pr["failed_at"],
                                 "forbidden": pr["forbidden"], "log_tail": pr["log_tail"][-1500:]}, has_input=False)
